@@ -26,7 +26,9 @@ OO_POOL = [{"optimize_with_greedy": False}, {"optimize_with_safe_zero_edges": Tr
            {"optimize_with_safe_sequences_fix_zero_edges": True}, {"optimize_with_flow_safe_paths": True}, {"allow_empty_paths": False}, {"allow_empty_walks": False},
            {"use_subgraph_scanning_lowerbound": True}, {"use_min_gen_set_lowerbound": True}, {"optimize_with_guessed_weights": True},
            {"use_subgraph_scanning_lowerbound": True, "optimize_with_greedy": False}, {"optimize_with_safe_sequences_fix_via_bounds": True},
-           {"optimize_with_safe_sequences_fix_via_bounds": True, "optimize_with_safe_sequences_fix_zero_edges": True}, {"optimize_with_safety_as_subpath_constraints": True, "optimize_with_safe_paths": True}]
+           {"optimize_with_safe_sequences_fix_via_bounds": True, "optimize_with_safe_sequences_fix_zero_edges": True}, {"optimize_with_safety_as_subpath_constraints": True, "optimize_with_safe_paths": True},
+           {"external_safe_paths": [], "optimize_with_safety_as_subpath_constraints": True, "optimize_with_safe_sequences": True},
+           {"external_safe_paths": [], "optimize_with_safety_as_subpath_constraints": True}]
 
 
 def gen_cases(tier, seed):
@@ -41,6 +43,8 @@ def gen_cases(tier, seed):
         mfd_only = any(k_ in oo_ for k_ in ("use_subgraph_scanning_lowerbound", "use_min_gen_set_lowerbound", "optimize_with_guessed_weights", "optimize_with_flow_safe_paths"))
         if mfd_only:
             cyc = False; ex = True          # options that only MinFlowDecomp reads: make sure it is among the steps, on a flow it accepts
+        if "external_safe_paths" in oo_:
+            cyc = False                     # (read by the DAG models; constraints are forced below so that there is something to append)
         fam = CYC_FAM if cyc else DAG_FAM
         if node:
             base = I.cyc_node_base(rng, wt="int", max_edges=7, exact=ex) if cyc else I.dag_node_base(rng, wt="int", max_edges=8, exact=ex)
@@ -60,7 +64,7 @@ def gen_cases(tier, seed):
              "probe_dict": (not node) and cyc and rng.random() < 0.4, "pending": rng.random() < 0.35, "eps": rng.choice([None, None, 0.1, 0.25, 1.0])}
         if queued:
             c["pending"] = True; c["oo"] = {"optimize_with_safe_sequences_fix_via_bounds": True}
-        if rng.random() < 0.4 and base["planted"]:
+        if (rng.random() < 0.4 or "external_safe_paths" in oo_) and base["planted"]:
             c["cons"] = gen.jl(I.constraints_from_planted(rng, base, n=1))
         elems = base["nodes"] if node else base["edges"]
         if rng.random() < 0.4 and len(elems) >= 3:
@@ -72,6 +76,9 @@ def gen_cases(tier, seed):
         if not cyc and rng.random() < 0.3:
             c["superset"] = [w for _, w in base["planted"]][:3] + [1]
         cases.append(c)
+    for i in range(6 if tier == "quick" else 60):
+        # models of one process that ask for different numbers of solver threads (own worker group: the HiGHS task scheduler is process-wide)
+        cases.append({"kind": "threads", "rs": f"C18thr:{seed}:{i}", "group": "mix"})
     return cases
 
 
@@ -178,7 +185,48 @@ def outcome(cls, G, kw, idem, viol, obs, tag):
     return summ
 
 
+def run_threads(case):
+    """the same instance solved by several models whose solver_options differ only in `threads` (1, 2, default, 3 ... in random order):
+    every one of them must be solved, with the same objective"""
+    viol = []; obs = collections.Counter()
+    rng = gen.rng_for(case["rs"])
+    cyc = rng.random() < 0.4
+    base = I.cyc_edge_base(rng, wt="int", max_edges=7, exact=True) if cyc else I.dag_edge_base(rng, wt="int", max_edges=8, exact=True)
+    G = gen.build(I.spec_of(base)); p = max(1, len(base["planted"]))
+    cls = rng.choice(["kMinPathErrorCycles", "kLeastAbsErrorsCycles", "MinPathCoverCycles", "MinFlowDecompCycles"] if cyc else ["kMinPathError", "kLeastAbsErrors", "MinPathCover", "MinFlowDecomp", "kFlowDecomp"])
+    seq = rng.choice([[1, 2, 1], [2, 1], [None, 1, None], [1, None], [3, 1, 2], [1, 1, 4]])
+    outs = []
+    for t in seq:
+        kw = {} if "Cover" in cls else {"flow_attr": "flow", "weight_type": int}
+        if cls.startswith("k"):
+            kw["k"] = p
+        if cls in ("kFlowDecomp", "MinFlowDecomp"):
+            kw["optimization_options"] = {"optimize_with_greedy": False}
+        if t is not None:
+            kw["solver_options"] = {"threads": t, "time_limit": 20}
+        r = M.safe_call(getattr(fp, cls), G, **kw)
+        if r[0] != "ok":
+            outs.append(("ctor-" + r[1],)); continue
+        M.safe_call(r[1].solve)
+        solved = bool(r[1].is_solved())
+        st = None
+        try:
+            st = r[1].solver.get_model_status() if getattr(r[1], "solver", None) is not None else None
+        except BaseException:
+            pass
+        outs.append((solved, (round(r[1].get_objective_value(), 6) if solved else None), st))
+        obs["c18.thread_history_steps"] += 1
+    desc = f"{cls} threads sequence {seq} on edges={[(u, v, d.get('flow')) for u, v, d in G.edges(data=True)]}: {outs}"
+    if any(o[-1] == "kTimeLimit" for o in outs):
+        return {"viol": [], "obs": {"c18.thread_history_time_limited": 1}, "nontrivial": False}
+    if len({o[:2] for o in outs}) > 1:
+        viol.append({"sig": f"C18/result-depends-on-history/threads-of-an-earlier-model/{cls}", "msg": desc})
+    return {"viol": viol, "obs": dict(obs), "nontrivial": True, "keys": [hashlib.sha1(desc.encode()).hexdigest()[:14]], "sample": {"threads": seq, "cls": cls}}
+
+
 def run_case(case):
+    if case.get("kind") == "threads":
+        return run_threads(case)
     old = (fp.MinFlowDecomp.subgraph_lowerbound_size, fp.MinFlowDecomp.subgraph_lowerbound_shift)
     fp.MinFlowDecomp.subgraph_lowerbound_size, fp.MinFlowDecomp.subgraph_lowerbound_shift = 3, 2      # the scanning option then acts on small graphs
     try:
